@@ -2,12 +2,12 @@
 SPECIFICATION Spec
 CONSTANTS
   Nodes <- MCNodes
-  Chunks <- MCChunks
-  Holder0 <- MCHolder
+  Chunks <- MCChunks1
+  Holder0 <- MCHolder1
   Funds <- MCFundsRich
   Thr = 2
   Tol = 2
-  FaultKinds <- ConcFaults
+  FaultKinds <- LoseOnly
   MaxFaults = 1
   MaxTop = 2
   MaxSettle = 0
